@@ -50,5 +50,54 @@ conv_total!(c10_conversion_info_total_len1, 1, 4);
 // post-processing of the pointer arithmetic in core::str's UTF-8 validation (align_offset) dominates even for
 // tiny inputs (200 s for the empty input, 560 s for one byte).
 
+/// C10 (authenticity mechanism "domain + origin + metadata as HPKE info"): `to_enc_bytes` is exactly
+///   DOMAIN ++ HELPER_ORIGIN ++ site-domain bytes (unchanged) ++ key_id ++ timestamp ++ epsilon ++ sensitivity (big endian),
+/// so two conversion infos that differ in any metadata bit have different HPKE info strings (injective layout for a
+/// fixed site-domain length). BOUNDED: site domains of 0..=3 ASCII bytes (symbolic contents).
+#[kani::proof]
+#[kani::unwind(40)]
+fn c10_conversion_info_enc_bytes_layout() {
+    let n: usize = kani::any();
+    kani::assume(n <= 3);
+    let site: [u8; 3] = kani::any();
+    kani::assume(site[0] < 0x80 && site[1] < 0x80 && site[2] < 0x80);
+    // ASCII by the assumption above, so the unchecked constructor is sound (String::from_utf8's validation loop costs
+    // CBMC minutes, see the units above)
+    let domain = unsafe { String::from_utf8_unchecked(site[..n].to_vec()) };
+    let info = HybridConversionInfo {
+        key_id: kani::any(),
+        conversion_site_domain: domain,
+        timestamp: kani::any(),
+        epsilon: kani::any(),
+        sensitivity: kani::any(),
+    };
+    kani::cover!(n == 3 && site[0] == b'M');
+    kani::cover!(n == 0);
+    let out = info.to_enc_bytes();
+    let p = DOMAIN.len() + HELPER_ORIGIN.len();
+    assert!(out.len() == p + n + 1 + 24);
+    let i: usize = kani::any();
+    kani::assume(i < out.len());
+    let ts = info.timestamp.to_be_bytes();
+    let ep = info.epsilon.to_be_bytes();
+    let se = info.sensitivity.to_be_bytes();
+    let expect = if i < DOMAIN.len() {
+        DOMAIN.as_bytes()[i]
+    } else if i < p {
+        HELPER_ORIGIN.as_bytes()[i - DOMAIN.len()]
+    } else if i < p + n {
+        site[i - p]
+    } else if i == p + n {
+        info.key_id
+    } else if i < p + n + 9 {
+        ts[i - p - n - 1]
+    } else if i < p + n + 17 {
+        ep[i - p - n - 9]
+    } else {
+        se[i - p - n - 17]
+    };
+    assert!(out[i] == expect);
+}
+
 #[cfg(test)]
 include!(concat!(env!("IPA_VERIF_DIR"), "/.build/playback/report_hybrid_info.rs"));
